@@ -36,7 +36,8 @@ theorem WorldOkGen.idx_sub {w w' : World} {ctr : Nat} {O : SlabID → Prop}
   have hS : ContsSig w w' := ⟨hT, fun q => by rw [hc]⟩
   refine ⟨by rw [hT]; exact H.legal, ?_, ?_, ?_, ?_, ?_, hS.uniqueRef H.unique, ?_, ?_,
     hS.closureOk H.closure (fun x hi hx => by rw [← hh]; exact hx), hS.cRank H.rank,
-    hS.refsBelow H.below (Nat.le_refl _), fun q x i hi => by rw [hc]; exact H.idxLive q x i (hidx q x i hi)⟩
+    hS.refsBelow H.below (Nat.le_refl _), hS.idxLive H.idxLive hidx,
+    hS.hinfoLive H.hinfoLive (fun x hi hx => by rw [← hh]; exact hx)⟩
   · intro z cz hz; rw [hc] at hz; exact H.ids z cz hz
   · intro z cz hz; rw [hc] at hz; rw [ha]; exact H.addr z cz hz
   · intro z cz hz; rw [hc] at hz; rw [hT]; exact H.conts z cz hz
